@@ -73,8 +73,14 @@ FirstPc(o) == CASE o = "enq"        -> "E1"
                 [] o = "pub_idx"    -> "P1"
                 [] o = "unleak_idx" -> "U1"
 
-\* monitor view of an operation: reservations are not queue operations
-MonOp(o) == IF o.op \in {"enq", "deq"} THEN [op |-> o.op, v |-> o.v] ELSE LQ!NoOp
+\* monitor view of an operation: publishing a reserved slot is an enqueue of what was written into it;
+\* reserving / filling / cancelling are not queue operations, but reserved slots take capacity (Extra)
+MonOpP(p, o) == IF o.op \in {"enq", "deq"} THEN [op |-> o.op, v |-> o.v]
+                ELSE IF o.op = "pub_idx" THEN [op |-> "enq", v |-> buf[reg[p].resv[o.i]]]
+                ELSE LQ!NoOp
+RECURSIVE SumResv(_)
+SumResv(S) == IF S = {} THEN 0 ELSE LET p == CHOOSE x \in S : TRUE IN Len(reg[p].resv) + SumResv(S \ {p})
+Extra == SumResv(Procs)
 
 \* `fill`, and the non-atomic preludes of pub_idx / unleak_idx, happen in the same step as the call
 \* (the harness records no separate event for them)
@@ -88,8 +94,8 @@ Call(p, o) ==
               THEN [reg EXCEPT ![p].op = o, ![p].res = [ok |-> TRUE, v |-> 0]]
               ELSE [reg EXCEPT ![p].op = o]
     /\ buf' = IF o.op = "fill" THEN [buf EXCEPT ![reg[p].resv[o.i]] = o.v] ELSE buf
-    /\ pend' = [pend EXCEPT ![p] = MonOp(o)]
-    /\ cands' = LQ!LqCall(cands, pend, p, MonOp(o), 0)
+    /\ pend' = [pend EXCEPT ![p] = MonOpP(p, o)]
+    /\ cands' = LQ!LqCall(cands, pend, p, MonOpP(p, o), Extra)
     /\ UNCHANGED <<head, tail, etail, dhead>>
 
 \* the result the implementation hands back is in reg[p].res
@@ -97,9 +103,11 @@ Ret(p) ==
     /\ pc[p] = "ret"
     /\ pc' = [pc EXCEPT ![p] = "idle"]
     /\ pend' = [pend EXCEPT ![p] = LQ!NoOp]
-    /\ cands' = IF reg[p].op.op = "enq" THEN LQ!LqRet(cands, pend, p, [ok |-> reg[p].res.ok, v |-> 0], 0)
-                ELSE IF reg[p].op.op = "deq" THEN LQ!LqRet(cands, pend, p, reg[p].res, 0)
-                ELSE cands
+    /\ cands' = IF reg[p].op.op = "enq" THEN LQ!LqRet(cands, pend, p, [ok |-> reg[p].res.ok, v |-> 0], Extra)
+                ELSE IF reg[p].op.op = "deq" THEN LQ!LqRet(cands, pend, p, reg[p].res, Extra)
+                ELSE IF reg[p].op.op = "pub_idx"
+                THEN IF reg[p].res.ok THEN LQ!LqRet(cands, pend, p, [ok |-> TRUE, v |-> 0], Extra) ELSE LQ!LqRetCancel(cands, pend, p, Extra)
+                ELSE LQ!LqClose(cands, pend, Extra)
     /\ reg' = [reg EXCEPT ![p].op = [op |-> "none", v |-> 0, i |-> 0]]
     /\ UNCHANGED rvars
 
@@ -252,18 +260,17 @@ UnleakCasOk(p) ==  \* enqueuer_tail CAS(slot_id+1 -> slot_id) succeeds
     /\ pc' = [pc EXCEPT ![p] = "ret"]
     /\ UNCHANGED <<head, tail, dhead, buf, cands, pend>>
 
-UnleakCasFail(p) == \* `(reloaded_enqueuer_tail-1) / N > slot_id / N` -- the subtraction is checked in debug builds
+UnleakCasFail(p) == \* `reloaded_enqueuer_tail.wrapping_sub(1) / N > slot_id / N`
+    \* (before the repair recorded in known_findings.json -- "fixed: property=C15/C08" -- the subtraction was a checked
+    \*  one and panicked for etail = 0 in builds with overflow checks; a panic of the real code is an L1 verdict, NoPanic)
     /\ pc[p] = "U1"
     /\ etail # Add(reg[p].slot, 1)
-    /\ IF etail = 0 /\ OverflowChecks
-       THEN /\ pc' = [pc EXCEPT ![p] = "panic"]
-            /\ UNCHANGED reg
-       ELSE LET m1 == Sub(etail, 1) IN
-            IF m1 \div N > reg[p].slot \div N
-            THEN /\ reg' = [reg EXCEPT ![p].slot = reg[p].idx + (m1 \div N) * N]
-                 /\ pc' = pc
-            ELSE /\ reg' = [reg EXCEPT ![p].res = [ok |-> FALSE, v |-> 0]]
-                 /\ pc' = [pc EXCEPT ![p] = "ret"]
+    /\ LET m1 == Sub(etail, 1) IN
+       IF m1 \div N > reg[p].slot \div N
+       THEN /\ reg' = [reg EXCEPT ![p].slot = reg[p].idx + (m1 \div N) * N]
+            /\ pc' = pc
+       ELSE /\ reg' = [reg EXCEPT ![p].res = [ok |-> FALSE, v |-> 0]]
+            /\ pc' = [pc EXCEPT ![p] = "ret"]
     /\ UNCHANGED <<rvars, cands, pend>>
 
 -----------------------------------------------------------------------------
